@@ -50,7 +50,7 @@ CLAIMS = {
     'C18': dict(cat='exploration', engine='mchist', tech='bounded-exhaustive enumeration of (prefix history, probe) pairs with a differential oracle against a fresh process',
                 text='After every history of the C08 alphabet (depth<=4) and after singular / failed-allocation / expert-driver / other-size calls, a fixed probe (first factorization + solves) must produce bit-identical L, U, permutations and solutions to the same probe in a freshly forked process - in the memory mode of the history AND in the other one. The reverse-communication estimator ?lacon_ (function-static state): every 2x2/3x3 small-integer matrix estimated after a representative of every iteration class and in reverse catalogue order, bit-compared with the estimate made alone in a fresh process (engines/mclacon).', ref='5 C18, 10'),
     'C19': dict(cat='exploration', engine='mckern', tech='bounded-exhaustive enumeration of small matrices/factors x the full argument grid of each kernel against dense long-double definitions',
-                text='sp_?gemv / sp_?gemm on all patterns m,n<=3 x op {N,T,C} x alpha/beta incl. 0,1 x increments +-1,+-2 x leading dimensions (padding checked); sp_?trsv for all (uplo,trans,diag) on the real supernodal factors of every nonsingular pattern n<=4 x factor options; ?langs all norms; row-to-column conversion, copy and permuted-view constructors; 4 precisions; each call fork-isolated.', ref='5 C19'),
+                text='sp_?gemv / sp_?gemm on all patterns m,n<=3 x op {N,T,C} x alpha/beta incl. 0,1 x increments +-1,+-2 x leading dimensions (padding checked); sp_?trsv for all (uplo,trans,diag) on the real supernodal factors of every nonsingular pattern n<=4 x factor options and of a catalogue of four 10x10 matrices whose factors have single-column supernodes in front of several multi-column ones; ?langs all norms; row-to-column conversion, copy and permuted-view constructors; 4 precisions; each call fork-isolated.', ref='5 C19'),
     'C10': dict(cat='exploration', engine='mcorder', tech='bounded-exhaustive enumeration of all small patterns x orderings against a brute-force symbolic-Cholesky reference',
                 text='All 0/1 patterns m,n<=4 (thorough: all full-diagonal 5x5) x get_perm_c 0..3 x symmetric mode x every caller ordering: bijection, A*Pc shares and does not alter A, ordering changed only by a postorder, reported etree = etree of (A*Pc)^T(A*Pc) (or of Pc(A+A^T)Pc^T) with contiguous subtrees, partition into consecutive blocks.', ref='5 C10'),
     'C20': dict(cat='exploration', engine='mcread', tech='bounded-exhaustive enumeration of small matrices x file layouts written by an independent writer, read back through stdin',
